@@ -24,6 +24,64 @@ theorem limitHit_false {m : Option Nat} {e : Nat} (h : limitHit m e = false) :
   simp [limitHit] at h
   omega
 
+
+/-! ### unconditional invariant (any objective, any comparison, any start) -/
+
+structure Inv0 (c : Cfg X Y) (s : St X Y) : Prop where
+  bestMem : ∀ xb, s.bestX = some xb → xb ∈ s.calls
+  inb : ∀ x ∈ s.calls, c.inB x = true
+  cnt : s.evals = s.calls.length
+  lim : ∀ k, c.maxEvals = some k → s.evals ≤ k
+
+theorem inv0_init (c : Cfg X Y) : Inv0 c (init c) :=
+  ⟨by intro xb h; simp [init] at h, by intro x h; simp [init] at h, rfl, by intro k _; simp [init]⟩
+
+theorem inv0_boundedCall {c : Cfg X Y} {s : St X Y} (hs : Inv0 c s) (q : X) :
+    Inv0 c (boundedCall c s q).1 := by
+  obtain ⟨h1, h2, h3, h4⟩ := hs
+  unfold boundedCall
+  by_cases hb : c.inB q = true
+  · rw [if_pos hb]
+    unfold limitedCall
+    by_cases hl : limitHit c.maxEvals s.evals = true
+    · rw [if_pos hl]; exact ⟨h1, h2, h3, h4⟩
+    · rw [if_neg hl]
+      have hl' : limitHit c.maxEvals s.evals = false := by simpa using hl
+      have hin : ∀ z ∈ q :: s.calls, c.inB z = true := by
+        intro z hz
+        rcases List.mem_cons.mp hz with rfl | hz
+        · exact hb
+        · exact h2 z hz
+      have base : Inv0 c (counted s q) :=
+        ⟨fun xb h => List.mem_cons_of_mem _ (h1 xb h), hin, by simp [counted, h3], limitHit_false hl'⟩
+      cases hf : c.f q with
+      | val y =>
+        simp only [afterCall]
+        unfold record
+        split
+        · refine ⟨?_, hin, by simp [counted, h3], limitHit_false hl'⟩
+          intro xb h
+          simp at h
+          subst h
+          exact List.mem_cons_self
+        · exact base
+      | oob => exact base
+      | arith => exact base
+      | fatal => exact base
+      | nan => exact base
+  · rw [if_neg hb]; exact ⟨h1, h2, h3, h4⟩
+
+theorem inv0_runQueries {c : Cfg X Y} (qs : List X) : ∀ s, Inv0 c s → Inv0 c (runQueries c s qs).st := by
+  induction qs with
+  | nil => intro s hs; exact hs
+  | cons q qs ih =>
+    intro s hs
+    have h1 := inv0_boundedCall hs q
+    unfold runQueries
+    split
+    · exact h1
+    · exact ih _ h1
+
 section
 variable [LinearOrder Y] {c : Cfg X Y}
 
